@@ -275,6 +275,66 @@ def build_unit(unit, cfg, repo, outdir, variant=None, tag=""):
     return gen, path
 
 
+MUT_OPS = [
+    (r" == ", " != "), (r" != ", " == "), (r" < ", " <= "), (r" <= ", " < "), (r" > ", " >= "), (r" >= ", " > "),
+    (r" && ", " || "), (r" \|\| ", " && "), (r"\btrue\b", "false"), (r"\bfalse\b", "true"),
+    (r"\.is_none\(\)", ".is_some()"), (r"\.is_some\(\)", ".is_none()"), (r"if !", "if "), (r"&& !", "&& "),
+    (r" \+ 1\b", " + 2"), (r" - 1\b", " - 0"), (r"\bSome\(Self::Ok\)", "None"), (r"=> break\b", "=> continue"),
+]
+
+
+def mutation_probe(unit, gen, path, outdir, seed, cap=48):
+    """thorough tier only: single-token mutations of the EXTRACTED CODE lines (never of contract lines) of the generated file;
+    each mutant is run through Verus. killed = Verus rejects it, survived = all obligations still discharged,
+    invalid = does not type-check. A measured indication of how tightly the contracts pin the code down."""
+    import random
+    lines = [gl.text for gl in gen.lines]
+    cands = []
+    for ln, gl in enumerate(gen.lines):
+        if gl.origin[0] != "src" or gl.text.strip().startswith("//"):
+            continue
+        for oi, (pat, rep) in enumerate(MUT_OPS):
+            for mm in re.finditer(pat, gl.text):
+                cands.append((ln, oi, mm.start(), mm.end(), rep))
+        st = gl.text.strip()
+        if st.endswith(";") and re.match(r"^[a-z_][\w.]*\.(push|set|insert|reset\w*|extend_from_slice)\(", st):
+            cands.append((ln, -1, 0, len(gl.text), ""))
+    rnd = random.Random(seed * 7919 + len(cands))
+    rnd.shuffle(cands)
+    cands = cands[:cap]
+
+    def one(ix_c):
+        ix, (ln, oi, a, b, rep) = ix_c
+        ml = list(lines)
+        ml[ln] = ml[ln][:a] + rep + ml[ln][b:]
+        p2 = os.path.join(outdir, "%s_mut%d.rs" % (unit, ix))
+        with open(p2, "w") as fh:
+            fh.write("\n".join(ml) + "\n")
+        v = run_verus(p2, None, ["--multiple-errors", "0"], timeout=300)
+        try:
+            os.remove(p2)
+        except OSError:
+            pass
+        o = gen.lines[ln].origin
+        where = "%s:%d" % (o[1], o[2])
+        desc = "%s  [%s -> %s]" % (where, lines[ln][a:b].strip() or "stmt", rep.strip() or "(deleted)")
+        if v["timeout"] or v["json"] is None:
+            return "invalid", desc
+        res = v["json"].get("verification-results", {})
+        hard = [d for d in v["diags"] if d.get("level") == "error" and not classify(d.get("message", ""))[1]
+                and not d.get("message", "").startswith("aborting") and "rlimit" not in d.get("message", "")]
+        if hard:
+            return "invalid", desc
+        return ("survived" if res.get("success") else "killed"), desc
+    out = {"generated": len(cands), "killed": 0, "survived": 0, "invalid": 0, "survivors": []}
+    with cf.ThreadPoolExecutor(max_workers=12) as ex:
+        for status, desc in ex.map(one, enumerate(cands)):
+            out[status] += 1
+            if status == "survived":
+                out["survivors"].append(desc)
+    return out
+
+
 def main():
     ap = argparse.ArgumentParser()
     ap.add_argument("prop")
@@ -306,6 +366,7 @@ def main():
     per_unit = {}
     canaries_run = 0
     seeds_run = []
+    probes = {}
     for unit in pcfg["units"]:
         ucfg = cfg["units"][unit]
         try:
@@ -409,11 +470,16 @@ def main():
         if not blocking and not tools:
             def canary(fid):
                 try:
-                    g2, p2 = build_unit(unit, cfg, args.repo, outdir, {"ensures_false": fid}, ".canary." + fid)
+                    g2, p2 = build_unit(unit, cfg, args.repo, outdir, {"ensures_false": fid}, "_canary_" + re.sub(r"\W", "_", fid))
                 except Exception as e:  # noqa: BLE001
                     return fid, None, str(e)
                 v2 = run_verus(p2, None, ["--multiple-errors", "0"])
-                ok = (v2["json"] or {}).get("verification-results", {}).get("success")
+                res2 = (v2["json"] or {}).get("verification-results")
+                if res2 is None:
+                    return fid, None, "canary did not reach verification: " + v2["raw"][-300:]
+                # the canary must be REJECTED by the prover (a failed postcondition), not by the type checker
+                proof_fail = any(d.get("level") == "error" and classify(d.get("message", ""))[1] for d in v2["diags"])
+                ok = bool(res2.get("success")) or not proof_fail
                 if not args.keep:
                     try:
                         os.remove(p2)
@@ -426,7 +492,7 @@ def main():
                     if ok is None:
                         all_tool.append({"kind": "canary", "message": "canary build failed for %s: %s" % (fid, err)})
                     elif ok:
-                        all_tool.append({"kind": "vacuity", "message": "`ensures false` verified for %s: contradictory preconditions/shims" % fid})
+                        all_tool.append({"kind": "vacuity", "message": "`ensures false` was not rejected by the prover for %s: contradictory preconditions/shims (or the canary did not verify at all)" % fid})
             # ---- thorough: reseeded + doubled rlimit runs must agree
             if tier == "thorough":
                 def reseed(sd):
@@ -434,6 +500,7 @@ def main():
                     f3, t3 = triage(unit, gen, v3, ucfg)
                     return sd, f3, t3, (v3["json"] or {}).get("verification-results", {}).get("success")
                 sds = [seed + 1, seed + 2, seed + 3]
+                probes[unit] = mutation_probe(unit, gen, path, outdir, seed)
                 base_mine = set(x["obligation"] for x in fails if pid in x["property"])
                 with cf.ThreadPoolExecutor(max_workers=3) as ex:
                     for sd, f3, t3, ok in ex.map(reseed, sds):
@@ -501,6 +568,7 @@ def main():
             "per_unit": per_unit,
             "vacuity_canaries_run": canaries_run,
             "reseeded_runs": seeds_run,
+            "code_mutation_probe": probes,
             "solver_time_s": round(solver_ms / 1000.0, 3),
             "not_verified": pcfg.get("not_verified", []),
             "clauses_claimed": pcfg.get("claimed", []),
